@@ -30,8 +30,11 @@ fraction / exponent digits when present, and at least one of the two (otherwise 
 be an integer) -/
 def WFRepr : FloatRepr → Prop
   | .finite _ ip fp ex =>
-    ip ≠ [] ∧ fp ≠ some [] ∧ (∀ b, ex ≠ some (b, [])) ∧ (fp.isSome = true ∨ ex.isSome = true)
+    ip ≠ [] ∧ fp ≠ some [] ∧ ex.map (·.2) ≠ some [] ∧ (fp.isSome = true ∨ ex.isSome = true)
   | _ => True
+
+instance (r : FloatRepr) : Decidable (WFRepr r) := by
+  unfold WFRepr; split <;> exact inferInstance
 
 def wfReprB : FloatRepr → Bool
   | .finite _ ip fp ex =>
@@ -137,6 +140,17 @@ def constAt (c : PyConst) (text : Str) : Option Str :=
     if decide (ConstOk c p.1 (match c with | .int _ => .int | .float _ => .double | _ => .bool)) then some p.2
     else none
 
+/-- Maximal munch: a text starting with `-` (resp. `+`) directly after a `-` (resp. `+`) is not
+lexed as operator + signed literal but as the token `--` (`++`). -/
+def glued (prev : Char) (text : Str) : Bool :=
+  match text with
+  | c :: _ => (prev = '-' && c = '-') || (prev = '+' && c = '+')
+  | [] => false
+
+/-- `constAt` for a literal that directly follows the character `prev` -/
+def constAfter (prev : Char) (c : PyConst) (text : Str) : Option Str :=
+  if glued prev text then none else constAt c text
+
 /-! ## names inside the booking / fill lines -/
 
 /-- concatenated leading constant text, and the segments after it -/
@@ -163,6 +177,11 @@ def BookLineOk (segs : List Seg) : Bool :=
 
 inductive NameKind where | tree | col
   deriving DecidableEq, Repr
+
+def pickName (k : NameKind) (tree col : Str) : Str :=
+  match k with
+  | .tree => tree
+  | .col => col
 
 /-- where the literal holding the name starts in the rendered line, which name, and whether it
 was escaped -/
